@@ -16,7 +16,10 @@ PROP = dict(
         "(bicgstab_residual_invariant: tracked residual = true residual, terminate flag => exact solution; "
         "bicgstab_solver_returns_an_iterate); param/atlas: uvValid_sound "
         "(+ weighted-mean residual, validation); circle: runSums/arcParams (arc_params_increasing; libm, near); pack: buildQT/joined/toBounds (quadtree_cells_disjoint_in_unit, "
-        "to_bounds_affine) in exact arithmetic; mapfn: bary2/atBary3 (mapfn_barycentric_roundtrip); "
+        "to_bounds_affine) in exact arithmetic; mapfn: bary2/atBary3 (mapfn_barycentric_roundtrip; for clockwise / mirrored / "
+        "relabelled UV triangles mapfn_clockwise_roundtrip, mapfn_barycentric_affine_invariant, mapfn_mirrored_map_same_answer, "
+        "mapfn_weights_follow_corner_order: the expected point is the interpolation in the STORED corner order whatever the "
+        "orientation of the UV triangle, and a mirrored map answers the mirrored query with the same point); "
         "hist: floater_history_keeps_boundary (every solve of a history over ONE boundary map leaves that map unchanged and "
         "extends it by this solve's solution) + floater_row_convex_comb for THIS solve's weights (residual <= 1e-6, "
         "validation of the iterative solver) + uvValid_sound; near T: findUV = the faithful model of newTri2dLookup/Find "
@@ -41,7 +44,11 @@ PROP = dict(
         "MeshToPlaneGraphs[Limited], SplitPlaneGraph, boundarySequence, Floater97 / StretchMinimizingParameterization over "
         "Circle / PNorm / lattice-polygon boundaries with uniform / chord / shape-preserving / dyadic weights, "
         "BuildAutomaticUVMap, PackMeshUVMaps on dyadic charts, MapFn at dyadic barycentric points incl. shared edges, on grids "
-        "with legs from 1 down to 2^-18 next to a coarse chart); meshes with high-valence vertices in every pool: latitude / "
+        "with legs from 1 down to 2^-18 next to a coarse chart; every chart of these grids and every block of the near layouts is "
+        "laid out through one of the eight symmetries of its box - four of them mirror it: clockwise UV triangles -, in "
+        "half of the layouts a third of the triangles are stored with their corners in the reverse order, so a map holds clockwise, "
+        "counter-clockwise or both kinds of UV triangles; half of the real atlases are queried through a mirrored copy "
+        "v -> 1-v / u -> 1-u / u <-> v); meshes with high-valence vertices in every pool: latitude / "
         "longitude spheres, wheels and cylinders with 3..32 slices / spokes / sides, and hub discs (wheel over a random height "
         "profile, dome, cylinder without a cap; for the recorded exact system also punctured latitude / longitude spheres and "
         "spindles) whose hub has 16..32 interior neighbours - rows of the Floater system with 17..33 entries - in a third of "
@@ -134,7 +141,9 @@ PROP = dict(
         "true residual after every iteration and its terminate flag means an exact solution, and SolveLinearSystem returns an "
         "iterate that passed the tolerance test on the true residual when it leaves early; quad-tree "
         "cells are interior-disjoint and inside the root, borders shrink them inward, ToBounds is an affine bijection "
-        "onto the cell; Barycentric/AtBarycentric round-trip; soundness of the UV validity checker and of the disc "
+        "onto the cell; Barycentric/AtBarycentric round-trip for counter-clockwise and clockwise UV triangles alike, "
+        "the computed weights are invariant under every invertible affine map of the UV plane and MapFn of a V- / U-mirrored or "
+        "transposed map answers the mirrored query with the same point and triangle, the weights follow the stored corner order; soundness of the UV validity checker and of the disc "
         "decider; a history of solves over one boundary map never changes that map and every result extends it; the "
         "atlas recursion (split or append, any stretch oracle) covers every triangle exactly once; MapFn's pruned "
         "nearest-triangle search equals the linear scan for every sound bound, the Rect.SDF bound of the tree "
